@@ -58,9 +58,13 @@ def run(ctx):
         nfill, nkeys, suf = SIZES[sz]
         r, states = ctx.tlc_dump_steps("BlockCommit", "BlockCommit_%s.cfg" % sz, timeout=900)
         for s in states:
-            c = dict(s)
-            c.update({"id": len(cases), "mode": "crash", "nfill": nfill, "suf": suf, "size": sz, "nkeys": nkeys})
-            cases.append(c)
+            # the parallel phase depends on goroutine timing (a failed batch cancels the ones not yet started):
+            # its configurations are tried three times in the thorough tier
+            reps = 3 if (not quick and s["seq"] == s["nseq"] and 0 < len(s["perm"]) < s["np"]) else 1
+            for _ in range(reps):
+                c = dict(s)
+                c.update({"id": len(cases), "mode": "crash", "nfill": nfill, "suf": suf, "size": sz, "nkeys": nkeys})
+                cases.append(c)
         logs.append({"id": 100000 + len(logs), "mode": "log", "nfill": nfill, "suf": suf, "size": sz, "nkeys": nkeys,
                      "np": states[0]["np"], "nseq": states[0]["nseq"], "reads": [], "perm": [], "seqnames": []})
     cp = os.path.join(ctx.work, "cases.ndjson")
